@@ -63,3 +63,44 @@ Print Assumptions C10_wkb_reader_safe_on_written_values.
 Example C10_nonvacuous : substring 5 2 3 = Slice 1 4 /\ insert 3 2 1 = Slice 2 3 /\ pad 1 2 6 = Slice 0 6.
 Proof. exact (conj eq_refl (conj eq_refl eq_refl)). Qed.
 Print Assumptions C10_nonvacuous.
+
+(* ---- panic-freedom of cores modelled under other properties, collected here (DESIGN.md section 7, C10) ----
+   Each statement is the one proved in the named property's file; a change that breaks it there breaks it here. *)
+From GMS Require Props.C30 Props.C32 Props.C24 Props.C40 Props.C16.
+
+(* character-set conversion (sql/encodings RangeMap): no byte string makes Decode or Encode panic, for every table
+   satisfying the well-formedness predicate that the 12 translated tables satisfy *)
+Theorem C10_charset_decode_never_panics :
+  forall (rm : Charset.rangemap) (c : list BinNums.N),
+    Charset.wf_map rm = true -> Charset.decode rm c <> Charset.Panic.
+Proof. exact Props.C30.C30_decode_never_panics. Qed.
+Print Assumptions C10_charset_decode_never_panics.
+
+Theorem C10_charset_encode_never_panics :
+  forall (rm : Charset.rangemap) (s hid : list BinNums.N),
+    Charset.wf_map rm = true -> Charset.encode rm s hid <> Charset.Panic.
+Proof. exact Props.C30.C30_encode_never_panics. Qed.
+Print Assumptions C10_charset_encode_never_panics.
+
+(* JSON unquoting (internal/strings.Unquote, reached by JSON_UNQUOTE): no input panics *)
+Theorem C10_json_unquote_never_panics : forall s : list BinNums.N, JsonQuote.unquote s <> JsonQuote.RPanic.
+Proof. exact Props.C32.C32_unquote_never_panics. Qed.
+Print Assumptions C10_json_unquote_never_panics.
+
+(* stored-procedure interpreter: the program counter never leaves the op list, for runs of any length *)
+Theorem C10_procedure_interpreter_never_panics :
+  forall ops : list C24Proc.op,
+    C24ProcProofs.targets_ok ops = true ->
+    forall (fuel : nat) (counter : BinNums.Z) (st : C24Proc.state),
+      C24ProcProofs.hok st ->
+      BinInt.Z.le (BinNums.Zneg BinNums.xH) counter -> C24Proc.run ops fuel counter st <> C24Proc.MPanic.
+Proof. exact Props.C24.C24_pc_in_bounds. Qed.
+Print Assumptions C10_procedure_interpreter_never_panics.
+
+(* in-memory index maintenance: no DML/DDL history panics, whatever the index names *)
+Theorem C10_index_maintenance_never_panics :
+  forall (hp : C16Index.row -> nat) (nparts : nat) (pks : list nat) (h : list C16Index.op),
+    C16Index.hist_ok hp (C16Index.init nparts pks) h = true ->
+    C16Index.run hp (C16Index.init nparts pks) h <> C16Index.Panic.
+Proof. exact Props.C16.C16_no_panic_whatever_the_index_names. Qed.
+Print Assumptions C10_index_maintenance_never_panics.
